@@ -12,7 +12,11 @@ by the integers the model uses.
 
 A program is a dict
     {"kind": "tx"|"plain", "mode": "fast"|"locked"|"serializable", "timeout": <u, multiple of 20>,
-     "form": "ctx"|"dec", "ops": [op, ...]}
+     "form": "ctx"|"dec"|"obj", "ops": [op, ...]}
+    form: "ctx" = `async with cache.transaction(mode, timeout) as tx:` (a context object of its own), "dec" = a call of THE function decorated
+    with `@cache.transaction(mode, timeout)` (one per (mode, timeout), shared by all tasks), "obj" = `async with T as tx:` on THE context
+    object `T = cache.transaction(mode, timeout)` (one per (mode, timeout), created once and shared by all tasks: entered by several tasks
+    at once and, with ["nin","obj"], by one task nested in itself)
     op = ["set",k,v] | ["incr",k,n] | ["get",k] | ["del",k] | ["expire",k(,ttl seconds)] | ["setx",k,v,1|0] | ["sleep",ticks]
        | ["raise"] | ["raise","base"] | ["raise","falsy"] | ["raise","falsybase"] | ["nin",form] | ["nout"]
                                      (setx = cache.set(k, v, exist=True|False); its result is recorded as 1/0;
@@ -20,6 +24,9 @@ A program is a dict
                                       ["raise","falsy"] raises an Exception subclass whose instances are FALSY (`__len__() == 0`: an
                                       error collection raised while empty), ["raise","falsybase"] a non-Exception BaseException subclass
                                       whose instances are falsy (`__bool__() is False`))
+       | ["nfail"] | ["nfail",kind]  closes the innermost nested block like ["nout"], but the inner block is LEFT BY AN EXCEPTION (kind as for
+                                     "raise": "" | "base" | "falsy" | "falsybase") raised at the end of its body, which the enclosing body
+                                     catches right outside the block (`try: async with ...: ...; raise E()` / `except E: pass`) and goes on
        | ["commit"] | ["rollback"]   explicit `await tx.commit()` / `await tx.rollback()` on the `Transaction` object that the innermost
                                      enclosing `async with cache.transaction(...) as tx` returned (the body goes on afterwards)
        | ["gc"]  (environment event, not part of the model: an abandoned call of the decorated function is finalised
@@ -292,6 +299,10 @@ class BodyFalsyBase(BaseException):
 
 RAISES = {"": BodyError, "base": BodyBase, "falsy": BodyFalsy, "falsybase": BodyFalsyBase}
 
+# what an inner block raises when the enclosing body is going to catch it (`nfail`): classes of their own, so that the `except`
+# clause around the inner block never swallows the body's own `raise` ops
+INNER_RAISES = {k: type("Inner" + c.__name__, (c,), {}) for k, c in RAISES.items()}
+
 
 MODES = {"fast": "FAST", "locked": "LOCKED", "serializable": "SERIALIZABLE"}
 
@@ -301,21 +312,23 @@ def key_name(k: int) -> str:
 
 
 def split_nested(ops):
-    """[... ["nin",f], inner..., ["nout"], ...] -> tree: list of op | ("block", form, subtree)"""
+    """[... ["nin",f], inner..., ["nout"] | ["nfail",kind], ...] -> tree: list of op | ("block", form, subtree, fail kind | None)"""
     def parse(i):
         out = []
         while i < len(ops):
             op = ops[i]
             if op[0] == "nin":
-                sub, i = parse(i + 1)
-                out.append(("block", op[1], sub))
+                sub, i, fail = parse(i + 1)
+                out.append(("block", op[1], sub, fail))
                 continue
             if op[0] == "nout":
-                return out, i + 1
+                return out, i + 1, None
+            if op[0] == "nfail":
+                return out, i + 1, (op[1] if len(op) > 1 else "")
             out.append(op)
             i += 1
-        return out, i
-    tree, _ = parse(0)
+        return out, i, None
+    tree, _, _ = parse(0)
     return tree
 
 
@@ -349,6 +362,15 @@ def execute(init: dict, programs: list[dict], schedule: list[int], snapshot=True
                 decorated[key] = call_in_tx
             return decorated[key]
 
+        # one context object per (mode, timeout): shared by every task that uses the "obj" form (`T = cache.transaction(...)` at module level)
+        shared: dict[tuple, Any] = {}
+
+        def obj_for(mode, timeout):
+            key = (mode, timeout)
+            if key not in shared:
+                shared[key] = cache.transaction(getattr(TransactionMode, MODES[mode]), timeout=timeout / U)
+            return shared[key]
+
         snaps = []
 
         def view():
@@ -371,7 +393,16 @@ def execute(init: dict, programs: list[dict], schedule: list[int], snapshot=True
             async def run_ops(tree):
                 for op in tree:
                     if op[0] == "block":
-                        await in_block(op[1], op[2])
+                        if op[3] is None:
+                            await in_block(op[1], op[2])
+                        else:
+                            # the inner block fails and the enclosing body handles that itself
+                            if op[3] not in INNER_RAISES:
+                                raise SchedError(f"bad op nfail {op[3]}")
+                            try:
+                                await in_block(op[1], list(op[2]) + [["raise_inner", op[3]]])
+                            except INNER_RAISES[op[3]]:
+                                pass
                     elif op[0] == "set":
                         await cache.set(key_name(op[1]), op[2])
                     elif op[0] == "incr":
@@ -390,6 +421,8 @@ def execute(init: dict, programs: list[dict], schedule: list[int], snapshot=True
                         if (op[1] if len(op) > 1 else "") not in RAISES:
                             raise SchedError(f"bad op {op}")
                         raise RAISES[op[1] if len(op) > 1 else ""]()
+                    elif op[0] == "raise_inner":
+                        raise INNER_RAISES[op[1]]()
                     elif op[0] in ("commit", "rollback"):
                         tx = next((h for h in reversed(handles) if h is not None), None)
                         if tx is None:
@@ -423,6 +456,15 @@ def execute(init: dict, programs: list[dict], schedule: list[int], snapshot=True
                         await dec_for(mode, timeout)(lambda: run_ops(tree))
                     finally:
                         handles.pop()
+                elif form == "obj":
+                    async with obj_for(mode, timeout) as tx:
+                        handles.append(tx)
+                        try:
+                            await run_ops(tree)
+                        finally:
+                            handles.pop()
+                elif form != "ctx":
+                    raise SchedError(f"bad form {form}")
                 else:
                     async with cache.transaction(getattr(TransactionMode, MODES[mode]), timeout=timeout / U) as tx:
                         handles.append(tx)
